@@ -8,6 +8,31 @@ TRUSTED_BASE = [
 ]
 
 PROPS = {
+    "C18": {
+        "modules": ["Replicon.Props.C18"],
+        "theorems": [
+            "Replicon.C18.C18_entities",
+            "Replicon.C18.C18_components",
+            "Replicon.C18.C18_nodup",
+            "Replicon.C18.C18_extends",
+            "Replicon.C18.C18_fresh",
+        ],
+        "profiles": [{"name": "c18"}],
+        "rule": "c18: a fresh App per case with 0..6 rules drawn from a menu of 17 single / bundle / custom-priority rules over components "
+                "A-D (reflected), E (registered, no #[reflect(Component)]), F (unregistered), 0..5 entities with random subsets of A-F and the "
+                "never-replicated X, marked or not, optionally a scene that already holds every second entity; real scene::replicate_into, then "
+                "real serialize -> deserialize. The scene (sorted) is compared with the Lean model (replicateInto) and with the oracle from the "
+                "property text (one entry per marked entity, exactly one copy of every selected reflectable component with its current value, "
+                "nothing else, no component twice, read-back succeeds). distinct_nontrivial = distinct cases with >= 1 rule and >= 1 marked entity.",
+        "trusted_extra": [
+            "modelled, not verified: archetype iteration (modelled per entity: all entities of an archetype are treated alike), Bevy reflection "
+            "registry (a predicate refl), Bevy's scene serializer (exercised by the harness, not modelled)",
+        ],
+        "assumptions": [
+            "entities have distinct ids; the 'extends' clause (C18_extends) appends to what the scene entity already holds, so a component that the "
+            "existing scene entity already carried would appear twice (DESIGN.md F17): C18_nodup speaks about the exported components",
+        ],
+    },
     "C17": {
         "modules": ["Replicon.Props.C17"],
         "theorems": [
@@ -90,6 +115,18 @@ PROPS = {
 }
 
 MANIFEST_TEXT = {
+    "C18": {
+        "text": "Lean theorems about a model of scene::replicate_into for every rule list (any overlap, order, priorities), every reflectability "
+                "predicate and every world: exactly the pre-existing entries plus one per marked entity (C18_entities), the exported components "
+                "are exactly the selected reflectable ones with current values (C18_components), none twice (C18_nodup), existing scene entities "
+                "are extended in place and unmarked ones untouched (C18_extends, C18_fresh). Tied to the code by running the real "
+                "replicate_into + scene serializer on 2500 generated worlds/rule sets per quick run and comparing with the model and an "
+                "independent oracle.",
+        "design_ref": "DESIGN.md §7 C18",
+        "note": "Bevy reflection/scene serialization is exercised, not modelled; 'can be read back' is reduced to 'no component twice' in the "
+                "theorem. Existing scene entities that already hold a replicated component (double export, F17) are outside C18_nodup.",
+        "technique": "Lean 4 proof (fold invariants over rules/components/entities) + differential correspondence against the real export",
+    },
     "C17": {
         "text": "Lean theorems about a model of the example backend's receive queue and tcp framing: with the key (timestamp, sequence) — "
                 "scraped from TimedMessage::cmp on every run — an earlier message strictly beats every later one (C17_pop_forced), so for any "
